@@ -11,12 +11,11 @@ import (
 	"go/token"
 	"go/types"
 	"os"
-	"reflect"
-	"strings"
 	"unsafe"
 
 	"golang.org/x/tools/go/ssa"
-	"golang.org/x/tools/internal/typeparams"
+
+	"gosym/sym"
 )
 
 // If the target program panics, the interpreter panics with this type.
@@ -126,6 +125,10 @@ func asInt64(x value) int64 {
 		return int64(x)
 	case uintptr:
 		return int64(x)
+	case *sym.Term:
+		if x.IsConst() {
+			return x.SignedVal()
+		}
 	}
 	panic(fmt.Sprintf("cannot convert %T to int64", x))
 }
@@ -256,12 +259,9 @@ func zero(t types.Type) value {
 		}
 		return s
 	case *types.Chan:
-		return chan value(nil)
+		return (*channel)(nil)
 	case *types.Map:
-		if usesBuiltinMap(t.Key()) {
-			return map[value]value(nil)
-		}
-		return (*hashmap)(nil)
+		return (*omap)(nil)
 	case *types.Signature:
 		return (*ssa.Function)(nil)
 	}
@@ -269,15 +269,22 @@ func zero(t types.Type) value {
 }
 
 // slice returns x[lo:hi:max].  Any of lo, hi and max may be nil.
-func slice(x, lo, hi, max value) value {
+func (i *interpreter) slice(x, lo, hi, max value) value {
 	var Len, Cap int
 	switch x := x.(type) {
 	case string:
 		Len = len(x)
+		Cap = Len
+	case sstr:
+		Len = len(x)
+		Cap = Len
 	case []value:
 		Len = len(x)
 		Cap = cap(x)
 	case *value: // *array
+		if x == nil {
+			panic(targetPanic{i.rtErr("invalid memory address or nil pointer dereference")})
+		}
 		a := (*x).(array)
 		Len = len(a)
 		Cap = cap(a)
@@ -285,22 +292,30 @@ func slice(x, lo, hi, max value) value {
 
 	l := int64(0)
 	if lo != nil {
-		l = asInt64(lo)
+		l = i.sliceBound(lo, Cap)
 	}
-
 	h := int64(Len)
 	if hi != nil {
-		h = asInt64(hi)
+		h = i.sliceBound(hi, Cap)
 	}
-
 	m := int64(Cap)
 	if max != nil {
-		m = asInt64(max)
+		m = i.sliceBound(max, Cap)
 	}
-
+	if m < 0 || m > int64(Cap) {
+		panic(targetPanic{i.rtErr(fmt.Sprintf("slice bounds out of range [::%d] with capacity %d", m, Cap))})
+	}
+	if h < 0 || h > m {
+		panic(targetPanic{i.rtErr(fmt.Sprintf("slice bounds out of range [:%d] with capacity %d", h, m))})
+	}
+	if l < 0 || l > h {
+		panic(targetPanic{i.rtErr(fmt.Sprintf("slice bounds out of range [%d:%d]", l, h))})
+	}
 	switch x := x.(type) {
 	case string:
 		return x[l:h]
+	case sstr:
+		return mkStr([]value(x[l:h]))
 	case []value:
 		return x[l:h:m]
 	case *value: // *array
@@ -310,34 +325,62 @@ func slice(x, lo, hi, max value) value {
 	panic(fmt.Sprintf("slice: unexpected X type: %T", x))
 }
 
-// lookup returns x[idx] where x is a map.
-func lookup(instr *ssa.Lookup, x, idx value) value {
-	switch x := x.(type) { // map or string
-	case map[value]value, *hashmap:
-		var v value
-		var ok bool
-		switch x := x.(type) {
-		case map[value]value:
-			v, ok = x[idx]
-		case *hashmap:
-			v = x.lookup(idx.(hashable))
-			ok = v != nil
-		}
-		if !ok {
-			v = zero(instr.X.Type().Underlying().(*types.Map).Elem())
-		}
-		if instr.CommaOk {
-			v = tuple{v, ok}
-		}
-		return v
+// sliceBound returns a concrete slice bound; a symbolic one is split into "in range"
+// (enumerated) and "out of range" (one representative) so that the Go panic is found.
+func (i *interpreter) sliceBound(v value, capa int) int64 {
+	t, ok := v.(*sym.Term)
+	if !ok || t.IsConst() {
+		return asInt64(v)
 	}
-	panic(fmt.Sprintf("unexpected x type in Lookup: %T", x))
+	w := int(t.Sort.W)
+	inb := i.ctx.BvUle(t, i.ctx.BVC(w, uint64(capa)))
+	if !i.decide(inb) {
+		return int64(capa) + 1 // any out-of-range value triggers the same panic
+	}
+	return i.concretize(t, false, "slice bound")
+}
+
+// lookup returns x[idx] where x is a map.
+func (i *interpreter) lookup(instr *ssa.Lookup, x, idx value) value {
+	m, ok := x.(*omap)
+	if !ok {
+		panic(fmt.Sprintf("unexpected x type in Lookup: %T", x))
+	}
+	v, found := i.mapLookup(m, idx, instr.X.Type().Underlying().(*types.Map).Elem())
+	if instr.CommaOk {
+		return tuple{v, found}
+	}
+	return v
 }
 
 // binop implements all arithmetic and logical binary operators for
 // numeric datatypes and strings.  Both operands must have identical
 // dynamic type.
-func binop(op token.Token, t types.Type, x, y value) value {
+func (i *interpreter) binop(op token.Token, t types.Type, x, y value) value {
+	if isSym(x) || isSym(y) {
+		r := i.symBinop(op, t, x, y)
+		if rt, ok := r.(*sym.Term); ok && rt.IsConst() && t != nil {
+			switch op {
+			case token.EQL, token.NEQ, token.LSS, token.LEQ, token.GTR, token.GEQ:
+			default:
+				return i.termToGo(t, rt)
+			}
+		}
+		return r
+	}
+	switch op {
+	case token.QUO, token.REM:
+		switch y.(type) {
+		case int, int8, int16, int32, int64, uint, uint8, uint16, uint32, uint64, uintptr:
+			if asInt64(y) == 0 {
+				panic(targetPanic{i.rtErr("integer divide by zero")})
+			}
+		}
+	case token.SHL, token.SHR:
+		if s, ok := signedDyn(y); ok && s && asInt64(y) < 0 {
+			panic(targetPanic{i.rtErr("negative shift amount")})
+		}
+	}
 	switch op {
 	case token.ADD:
 		switch x.(type) {
@@ -734,10 +777,10 @@ func binop(op token.Token, t types.Type, x, y value) value {
 		}
 
 	case token.EQL:
-		return eqnil(t, x, y)
+		return i.eqnil(t, x, y)
 
 	case token.NEQ:
-		return !eqnil(t, x, y)
+		return i.not(i.eqnil(t, x, y))
 
 	case token.GTR:
 		switch x.(type) {
@@ -807,44 +850,43 @@ func binop(op token.Token, t types.Type, x, y value) value {
 }
 
 // eqnil returns the comparison x == y using the equivalence relation
-// appropriate for type t.
-// If t is a reference type, at most one of x or y may be a nil value
-// of that type.
-func eqnil(t types.Type, x, y value) bool {
+// appropriate for type t (a concrete bool or a term).
+func (i *interpreter) eqnil(t types.Type, x, y value) value {
 	switch t.Underlying().(type) {
 	case *types.Map, *types.Signature, *types.Slice:
 		// Since these types don't support comparison,
 		// one of the operands must be a literal nil.
 		switch x := x.(type) {
-		case *hashmap:
-			return (x != nil) == (y.(*hashmap) != nil)
-		case map[value]value:
-			return (x != nil) == (y.(map[value]value) != nil)
+		case *omap:
+			return (x != nil) == (y.(*omap) != nil)
 		case *ssa.Function:
 			switch y := y.(type) {
 			case *ssa.Function:
 				return (x != nil) == (y != nil)
 			case *closure:
-				return true
+				return false
+			case *ssa.Builtin:
+				return false
 			}
 		case *closure:
 			return (x != nil) == (y.(*ssa.Function) != nil)
+		case *ssa.Builtin:
+			return false
 		case []value:
 			return (x != nil) == (y.([]value) != nil)
 		}
 		panic(fmt.Sprintf("eqnil(%s): illegal dynamic type: %T", t, x))
 	}
-
-	return equals(t, x, y)
+	return i.equals(t, x, y)
 }
 
-func unop(instr *ssa.UnOp, x value) value {
+func (i *interpreter) unop(instr *ssa.UnOp, x value) value {
+	if isSym(x) && instr.Op != token.ARROW && instr.Op != token.MUL {
+		return i.symUnop(instr.Op, instr.X.Type(), x)
+	}
 	switch instr.Op {
 	case token.ARROW: // receive
-		v, ok := <-x.(chan value)
-		if !ok {
-			v = zero(instr.X.Type().Underlying().(*types.Chan).Elem())
-		}
+		v, ok := i.chanRecv(x.(*channel), zero(instr.X.Type().Underlying().(*types.Chan).Elem()))
 		if instr.CommaOk {
 			v = tuple{v, ok}
 		}
@@ -883,7 +925,7 @@ func unop(instr *ssa.UnOp, x value) value {
 			return -x
 		}
 	case token.MUL:
-		return load(typeparams.MustDeref(instr.X.Type()), x.(*value))
+		return i.load(mustDeref(instr.X.Type()), x.(*value))
 	case token.NOT:
 		return !x.(bool)
 	case token.XOR:
@@ -939,7 +981,7 @@ func typeAssert(i *interpreter, instr *ssa.TypeAssert, itf iface) value {
 
 	if err != "" {
 		if !instr.CommaOk {
-			panic(err)
+			panic(targetPanic{i.rtErr(err)})
 		}
 		return tuple{zero(instr.AssertedType), false}
 	}
@@ -949,56 +991,95 @@ func typeAssert(i *interpreter, instr *ssa.TypeAssert, itf iface) value {
 	return v
 }
 
-// This variable is no longer used but remains to prevent build breakage.
-var CapturedOutput *bytes.Buffer
-
 // callBuiltin interprets a call to builtin fn with arguments args,
 // returning its result.
-func callBuiltin(caller *frame, callpos token.Pos, fn *ssa.Builtin, args []value) value {
+func (i *interpreter) callBuiltin(caller *frame, callpos token.Pos, fn *ssa.Builtin, args []value) value {
 	switch fn.Name() {
 	case "append":
 		if len(args) == 1 {
 			return args[0]
 		}
-		if s, ok := args[1].(string); ok {
-			// append([]byte, ...string) []byte
-			arg0 := args[0].([]value)
-			for i := 0; i < len(s); i++ {
-				arg0 = append(arg0, s[i])
-			}
-			return arg0
+		var add []value
+		switch a := args[1].(type) {
+		case string, sstr:
+			add = strBytes(a)
+		case []value:
+			add = a
 		}
-		// append([]T, ...[]T) []T
-		return append(args[0].([]value), args[1].([]value)...)
+		dst := args[0].([]value)
+		if len(add) == 0 {
+			return dst
+		}
+		if len(dst)+len(add) <= cap(dst) {
+			// in-place growth: writes go through setCell so that they can be undone
+			out := dst[:len(dst)+len(add)]
+			for k, v := range add {
+				i.setCell(&out[len(dst)+k], copyVal(v))
+			}
+			return out
+		}
+		ncap := 2*cap(dst) + len(add)
+		out := make([]value, len(dst)+len(add), ncap)
+		for k := range dst {
+			out[k] = copyVal(dst[k])
+		}
+		for k, v := range add {
+			out[len(dst)+k] = copyVal(v)
+		}
+		// zero the spare capacity with a typed zero so that reslicing is safe
+		if ncap > len(out) {
+			var z value
+			if len(out) > 0 {
+				z = zeroLike(out[0])
+			}
+			spare := out[len(out):ncap]
+			for k := range spare {
+				spare[k] = z
+			}
+		}
+		return out
 
 	case "copy": // copy([]T, []T) int or copy([]byte, string) int
-		src := args[1]
-		if _, ok := src.(string); ok {
-			params := fn.Type().(*types.Signature).Params()
-			src = conv(params.At(0).Type(), params.At(1).Type(), src)
+		var src []value
+		switch a := args[1].(type) {
+		case string, sstr:
+			src = strBytes(a)
+		case []value:
+			src = a
 		}
-		return copy(args[0].([]value), src.([]value))
+		dst := args[0].([]value)
+		n := len(src)
+		if len(dst) < n {
+			n = len(dst)
+		}
+		if n > 0 && len(src) > 0 && len(dst) > 0 {
+			// handle overlap like the runtime (memmove semantics)
+			tmp := make([]value, n)
+			for k := 0; k < n; k++ {
+				tmp[k] = copyVal(src[k])
+			}
+			for k := 0; k < n; k++ {
+				i.setCell(&dst[k], tmp[k])
+			}
+		}
+		return n
 
 	case "close": // close(chan T)
-		close(args[0].(chan value))
+		i.chanClose(args[0].(*channel))
 		return nil
 
 	case "delete": // delete(map[K]value, K)
-		switch m := args[0].(type) {
-		case map[value]value:
-			delete(m, args[1])
-		case *hashmap:
-			m.delete(args[1].(hashable))
-		default:
-			panic(fmt.Sprintf("illegal map type: %T", m))
-		}
+		i.mapDelete(args[0].(*omap), args[1])
 		return nil
 
 	case "print", "println": // print(any, ...)
+		if !i.Trace {
+			return nil
+		}
 		ln := fn.Name() == "println"
 		var buf bytes.Buffer
-		for i, arg := range args {
-			if i > 0 && ln {
+		for k, arg := range args {
+			if k > 0 && ln {
 				buf.WriteRune(' ')
 			}
 			buf.WriteString(toString(arg))
@@ -1013,18 +1094,21 @@ func callBuiltin(caller *frame, callpos token.Pos, fn *ssa.Builtin, args []value
 		switch x := args[0].(type) {
 		case string:
 			return len(x)
+		case sstr:
+			return len(x)
 		case array:
 			return len(x)
 		case *value:
 			return len((*x).(array))
 		case []value:
 			return len(x)
-		case map[value]value:
-			return len(x)
-		case *hashmap:
+		case *omap:
 			return x.len()
-		case chan value:
-			return len(x)
+		case *channel:
+			if x == nil {
+				return 0
+			}
+			return len(x.buf)
 		default:
 			panic(fmt.Sprintf("len: illegal operand: %T", x))
 		}
@@ -1037,16 +1121,19 @@ func callBuiltin(caller *frame, callpos token.Pos, fn *ssa.Builtin, args []value
 			return cap((*x).(array))
 		case []value:
 			return cap(x)
-		case chan value:
-			return cap(x)
+		case *channel:
+			if x == nil {
+				return 0
+			}
+			return x.cap
 		default:
 			panic(fmt.Sprintf("cap: illegal operand: %T", x))
 		}
 
 	case "min":
-		return foldLeft(min, args)
+		return foldLeft(i.min, args)
 	case "max":
-		return foldLeft(max, args)
+		return foldLeft(i.max, args)
 
 	case "real":
 		switch c := args[0].(type) {
@@ -1079,8 +1166,6 @@ func callBuiltin(caller *frame, callpos token.Pos, fn *ssa.Builtin, args []value
 		}
 
 	case "panic":
-		// ssa.Panic handles most cases; this is only for "go
-		// panic" or "defer panic".
 		panic(targetPanic{args[0]})
 
 	case "recover":
@@ -1091,28 +1176,131 @@ func callBuiltin(caller *frame, callpos token.Pos, fn *ssa.Builtin, args []value
 		if recv.(*value) == nil {
 			recvType := args[1]
 			methodName := args[2]
-			panic(fmt.Sprintf("value method (%s).%s called using nil *%s pointer",
-				recvType, methodName, recvType))
+			panic(targetPanic{i.rtErr(fmt.Sprintf("value method (%s).%s called using nil *%s pointer",
+				recvType, methodName, recvType))})
 		}
 		return recv
 
 	case "ssa:deferstack":
 		return &caller.defers
+
+	// unsafe built-ins as used by strings.Builder and friends
+	case "SliceData":
+		return unsafeSlicePtr{args[0].([]value)}
+	case "StringData":
+		return unsafeStrPtr{args[0]}
+	case "String":
+		n := i.needInt(args[1], "unsafe.String length")
+		switch p := args[0].(type) {
+		case unsafeSlicePtr:
+			return mkStr(p.s[:n:n])
+		case unsafeStrPtr:
+			return mkStr(strBytes(p.s)[:n])
+		}
+		if n == 0 {
+			return ""
+		}
+		i.unsupported("unsafe.String of an unknown pointer")
+	case "Slice":
+		n := i.needInt(args[1], "unsafe.Slice length")
+		switch p := args[0].(type) {
+		case unsafeSlicePtr:
+			return p.s[:n]
+		case unsafeStrPtr:
+			return append([]value{}, strBytes(p.s)[:n]...)
+		}
+		if n == 0 {
+			return []value(nil)
+		}
+		i.unsupported("unsafe.Slice of an unknown pointer")
+	case "clear":
+		switch x := args[0].(type) {
+		case []value:
+			for k := range x {
+				i.setCell(&x[k], zeroLike(x[k]))
+			}
+		case *omap:
+			if x != nil {
+				for _, e := range append([]ment{}, x.ents...) {
+					if !e.dead {
+						i.mapDelete(x, e.k)
+					}
+				}
+			}
+		}
+		return nil
 	}
 
 	panic("unknown built-in: " + fn.Name())
 }
 
-func rangeIter(x value, t types.Type) iter {
-	switch x := x.(type) {
-	case map[value]value:
-		return &mapIter{iter: reflect.ValueOf(x).MapRange()}
-	case *hashmap:
-		return &hashmapIter{iter: reflect.ValueOf(x.entries()).MapRange()}
-	case string:
-		return &stringIter{Reader: strings.NewReader(x)}
+type unsafeSlicePtr struct{ s []value }
+type unsafeStrPtr struct{ s value }
+
+// zeroLike returns a zero value of the same dynamic shape as v (used for spare slice capacity).
+func zeroLike(v value) value {
+	switch x := v.(type) {
+	case bool:
+		return false
+	case int:
+		return int(0)
+	case int8:
+		return int8(0)
+	case int16:
+		return int16(0)
+	case int32:
+		return int32(0)
+	case int64:
+		return int64(0)
+	case uint:
+		return uint(0)
+	case uint8:
+		return uint8(0)
+	case uint16:
+		return uint16(0)
+	case uint32:
+		return uint32(0)
+	case uint64:
+		return uint64(0)
+	case uintptr:
+		return uintptr(0)
+	case float32:
+		return float32(0)
+	case float64:
+		return float64(0)
+	case *FV:
+		return float64(0)
+	case string, sstr:
+		return ""
+	case *sym.Term:
+		if x.Sort.K == sym.KBool {
+			return false
+		}
+		return x // width-correct placeholder; never observed before being overwritten
+	case *value:
+		return (*value)(nil)
+	case []value:
+		return []value(nil)
+	case *omap:
+		return (*omap)(nil)
+	case *channel:
+		return (*channel)(nil)
+	case iface:
+		return iface{}
+	case structure:
+		out := make(structure, len(x))
+		for k := range x {
+			out[k] = zeroLike(x[k])
+		}
+		return out
+	case array:
+		out := make(array, len(x))
+		for k := range x {
+			out[k] = zeroLike(x[k])
+		}
+		return out
 	}
-	panic(fmt.Sprintf("cannot range over %T", x))
+	return nil
 }
 
 // widen widens a basic typed value x to the widest type of its
@@ -1155,9 +1343,13 @@ func widen(x value) value {
 // conv converts the value x of type t_src to type t_dst and returns
 // the result.
 // Possible cases are described with the ssa.Convert operator.
-func conv(t_dst, t_src types.Type, x value) value {
+func (i *interpreter) conv(t_dst, t_src types.Type, x value) value {
 	ut_src := t_src.Underlying()
 	ut_dst := t_dst.Underlying()
+	switch x.(type) {
+	case *sym.Term, *FV:
+		return i.symConv(t_dst, t_src, x)
+	}
 
 	// Destination type is not an "untyped" type.
 	if b, ok := ut_dst.(*types.Basic); ok && b.Info()&types.IsUntyped != 0 {
@@ -1199,23 +1391,45 @@ func conv(t_dst, t_src types.Type, x value) value {
 		// []byte or []rune -> string
 		switch ut_src.Elem().Underlying().(*types.Basic).Kind() {
 		case types.Byte:
-			x := x.([]value)
-			b := make([]byte, 0, len(x))
-			for i := range x {
-				b = append(b, x[i].(byte))
-			}
-			return string(b)
+			return mkStr(x.([]value))
 
 		case types.Rune:
 			x := x.([]value)
 			r := make([]rune, 0, len(x))
-			for i := range x {
-				r = append(r, x[i].(rune))
+			for k := range x {
+				rv, ok := x[k].(rune)
+				if !ok {
+					i.unsupported("string([]rune) with symbolic runes")
+				}
+				r = append(r, rv)
 			}
 			return string(r)
 		}
 
 	case *types.Basic:
+		if ss, ok := x.(sstr); ok {
+			switch ut_dst := ut_dst.(type) {
+			case *types.Slice:
+				switch ut_dst.Elem().Underlying().(*types.Basic).Kind() {
+				case types.Byte:
+					return append([]value{}, []value(ss)...)
+				case types.Rune:
+					var res []value
+					b := []value(ss)
+					for len(b) > 0 {
+						r, n := i.decodeRune(b)
+						res = append(res, r)
+						b = b[n:]
+					}
+					return res
+				}
+			case *types.Basic:
+				if ut_dst.Kind() == types.String {
+					return ss
+				}
+			}
+			panic(fmt.Sprintf("unsupported conversion of symbolic string to %s", t_dst))
+		}
 		x = widen(x)
 
 		// integer -> string?
@@ -1384,13 +1598,13 @@ func conv(t_dst, t_src types.Type, x value) value {
 
 // sliceToArrayPointer converts the value x of type slice to type t_dst
 // a pointer to array and returns the result.
-func sliceToArrayPointer(t_dst, t_src types.Type, x value) value {
+func (i *interpreter) sliceToArrayPointer(t_dst, t_src types.Type, x value) value {
 	if _, ok := t_src.Underlying().(*types.Slice); ok {
 		if ptr, ok := t_dst.Underlying().(*types.Pointer); ok {
 			if arr, ok := ptr.Elem().Underlying().(*types.Array); ok {
 				x := x.([]value)
 				if arr.Len() > int64(len(x)) {
-					panic("array length is greater than slice length")
+					panic(targetPanic{i.rtErr("cannot convert slice to array pointer: length mismatch")})
 				}
 				if x == nil {
 					return zero(t_dst)
@@ -1423,31 +1637,57 @@ func foldLeft(op func(value, value) value, args []value) value {
 	return x
 }
 
-func min(x, y value) value {
+func (i *interpreter) min(x, y value) value {
 	switch x := x.(type) {
 	case float32:
-		return fmin(x, y.(float32))
+		if yf, ok := y.(float32); ok {
+			return fmin(x, yf)
+		}
 	case float64:
-		return fmin(x, y.(float64))
+		if yf, ok := y.(float64); ok {
+			return fmin(x, yf)
+		}
 	}
-
-	// return (y < x) ? y : x
-	if binop(token.LSS, nil, y, x).(bool) {
+	if _, ok := x.(*FV); ok {
+		return i.mathMaxMin(x, y, false)
+	}
+	if _, ok := y.(*FV); ok {
+		return i.mathMaxMin(x, y, false)
+	}
+	c := i.binop(token.LSS, nil, y, x)
+	if ct, ok := c.(*sym.Term); ok {
+		r, _ := i.iteVal(ct, y, x)
+		return r
+	}
+	if c.(bool) {
 		return y
 	}
 	return x
 }
 
-func max(x, y value) value {
+func (i *interpreter) max(x, y value) value {
 	switch x := x.(type) {
 	case float32:
-		return fmax(x, y.(float32))
+		if yf, ok := y.(float32); ok {
+			return fmax(x, yf)
+		}
 	case float64:
-		return fmax(x, y.(float64))
+		if yf, ok := y.(float64); ok {
+			return fmax(x, yf)
+		}
 	}
-
-	// return (y > x) ? y : x
-	if binop(token.GTR, nil, y, x).(bool) {
+	if _, ok := x.(*FV); ok {
+		return i.mathMaxMin(x, y, true)
+	}
+	if _, ok := y.(*FV); ok {
+		return i.mathMaxMin(x, y, true)
+	}
+	c := i.binop(token.GTR, nil, y, x)
+	if ct, ok := c.(*sym.Term); ok {
+		r, _ := i.iteVal(ct, y, x)
+		return r
+	}
+	if c.(bool) {
 		return y
 	}
 	return x
